@@ -54,6 +54,8 @@ theorem wp_readStep (k n : String) (Q : Out Unit → MS R → Prop) (flt ms) :
 
 theorem wp_refuse {α} (Q : Out α → MS R → Prop) (flt ms) : wp (refuse : M R α) Q flt ms ↔ Q .fail ms := Iff.rfl
 theorem wp_getSt (Q : Out (State R) → MS R → Prop) (flt ms) : wp getSt Q flt ms ↔ Q (.ok ms.st) ms := Iff.rfl
+theorem wp_setFlag (b : Bool) (Q : Out Unit → MS R → Prop) (flt ms) :
+    wp (setFlag b) Q flt ms ↔ Q (.ok ()) { ms with flag := b } := Iff.rfl
 theorem wp_getMS (Q : Out (MS R) → MS R → Prop) (flt ms) : wp getMS Q flt ms ↔ Q (.ok ms) ms := Iff.rfl
 theorem wp_emit (m : Msg R) (Q : Out Unit → MS R → Prop) (flt ms) :
     wp (emit m) Q flt ms ↔ Q (.ok ()) { ms with msgs := ms.msgs ++ [m] } := Iff.rfl
@@ -197,6 +199,9 @@ theorem hit_true_fired {flt : Option Addr} {fired : Bool} {c cx k n} (h : hit fl
 @[simp] theorem failMS_allocd (ms : MS R) (k n) : (failMS ms k n).allocd = ms.allocd := rfl
 @[simp] theorem failMS_failed (ms : MS R) (k n) : (failMS ms k n).failed = ms.failed := rfl
 @[simp] theorem okMS_fired (ms : MS R) (k n eff) : (okMS ms k n eff).fired = ms.fired := rfl
+@[simp] theorem okMS_flag (ms : MS R) (k n eff) : (okMS ms k n eff).flag = ms.flag := rfl
+@[simp] theorem failMS_flag (ms : MS R) (k n) : (failMS ms k n).flag = ms.flag := rfl
+@[simp] theorem setDet_flag (ms : MS R) (b) : (setDet ms b).flag = ms.flag := rfl
 @[simp] theorem okMS_detached (ms : MS R) (k n eff) : (okMS ms k n eff).detached = ms.detached := rfl
 @[simp] theorem failMS_detached (ms : MS R) (k n) : (failMS ms k n).detached = ms.detached := rfl
 @[simp] theorem okMS_cancel (ms : MS R) (k n eff) : (okMS ms k n eff).cancel = ms.cancel := rfl
@@ -208,7 +213,7 @@ theorem hit_true_fired {flt : Option Addr} {fired : Bool} {c cx k n} (h : hit fl
 
 /-- unfold one layer of the wp calculus (everything up to the next "does the plan hit this step?") -/
 macro "wp_simp" : tactic => `(tactic| simp only [wp_txn, wp_step, wp_readStep, wp_bind, wp_pure, wp_refuse,
-  wp_getSt, wp_getMS, wp_emit, wp_attempt, wp_ite, wpK_ok, wpK_fail, attK_ok, attK_fail,
+  wp_getSt, wp_getMS, wp_setFlag, okMS_flag, failMS_flag, setDet_flag, wp_emit, wp_attempt, wp_ite, wpK_ok, wpK_fail, attK_ok, attK_fail,
   txnK1_ok_some, txnK1_ok_none, txnK1_fail_some, txnK1_fail_none, txnK2_ok, txnK2_fail_some, txnK2_fail_none, onThenFailure,
   wp_withDetached, exec_withDetached, wp_renew, setDet_st, setDet_fired, setDet_cnt, setDet_detached,
   exec_pure, exec_step, exec_bind_step, exec_bind_getSt, exec_bind_getMS, exec_ite, hit_fired,
